@@ -81,7 +81,7 @@ def make_file(records, width, crlf, final_nl, desc):
     nl = b"\\r\\n" if crlf else b"\\n"
     out = bytearray()
     for ri, (name, seq) in enumerate(records):
-        out += b">" + name + ((b" a description here" if ri % 2 == 0 else b"\tlen=7 tab separated") if desc else b"") + nl
+        out += b">" + name + ((b" a description here" if ri % 2 == 0 else b"\tlen=7 tab separated, trailing white space \t") if desc else b"") + nl
         lines = [seq[i:i + width] for i in range(0, len(seq), width)]
         for li, ln in enumerate(lines):
             out += ln
@@ -339,7 +339,7 @@ def _conds(prefix=""):
             out.append(Cond(f"{prefix}index_{name[4:]}", src_all, name, to,
                             f"files of line width {width}, {'CRLF' if crlf else 'LF'}, final newline {'present' if final_nl else 'ABSENT'}: one record of up to 3 alternating runs "
                             f"(ACGT-class / other-class incl. lower case, IUPAC, * and -) of 0..{rmax} residues each, starting with either class, "
-                            f"{'after a fixed leading record, ' if lead else ''}optionally followed by a fixed record, with/without a header description (space- or TAB-separated); "
+                            f"{'after a fixed leading record, ' if lead else ''}optionally followed by a fixed record, with/without a header description (space- or TAB-separated, the latter ending in white space); "
                             "buffer size = UNBOUNDED symbolic integer >= 1",
                             tier=tier, encodes=ENC))
         if tier == "quick":
